@@ -14,12 +14,15 @@ from mako.ext.extract import MessageExtractor
 class BabelMakoExtractor(MessageExtractor):
     def __init__(self, keywords, comment_tags, options):
         self.keywords = keywords
+        encoding = options.get("input_encoding", options.get("encoding", None))
+        if encoding:
+            # the code handed to Babel's Python extractor is encoded in
+            # this encoding; Babel only looks at "encoding"
+            options = dict(options, encoding=encoding)
         self.options = options
         self.config = {
             "comment-tags": " ".join(comment_tags),
-            "encoding": options.get(
-                "input_encoding", options.get("encoding", None)
-            ),
+            "encoding": encoding,
         }
         super().__init__()
 
